@@ -144,6 +144,7 @@ type cluster struct {
 	internalBefore []string // internal events that were pending when the current external event started
 	lastKeyText    string
 	task           *task // replica-side task (rebuild, clone)
+	adds           map[int]*task // AddReplica calls split at factory.Create (node -> task)
 	taskX          *task // controller-side call under step control (the clone volume's Start)
 	cur            *task // the task that owns the CPU right now
 	cB             *controller.Controller // second volume (clone scenario)
@@ -192,7 +193,7 @@ type transport struct{}
 
 func (transport) RoundTrip(req *http.Request) (*http.Response, error) {
 	cl := curr
-	if t := cl.cur; t != nil && t.running {
+	if t := cl.cur; t != nil && t.running && t.goid == goid() {
 		// per-task nesting depth: only the task's own top-level requests are gates (handlers it reaches make nested ones)
 		top := atomic.AddInt32(&t.depth, 1) == 1
 		defer atomic.AddInt32(&t.depth, -1)
@@ -297,6 +298,10 @@ type factory struct{ cl *cluster }
 func (f factory) Create(address string) (types.Backend, error) {
 	cl := f.cl
 	n := nodeOf(address)
+	if t := cl.cur; t != nil && t.running && t.kind == "add" && t.goid == goid() {
+		// AddReplica has passed its admission check and released the controller lock: anything can happen here
+		cl.gate("inside BackendFactory.Create (controller unlocked)")
+	}
 	if n < 0 || n >= len(cl.nodes) {
 		return nil, fmt.Errorf("dial tcp %s: no route to host", address)
 	}
@@ -363,7 +368,7 @@ func newCluster(cfg *Cfg, scratch string) *cluster {
 		cfg.N = cfg.RF + 1
 	}
 	os.Setenv("REPLICATION_FACTOR", fmt.Sprint(cfg.RF))
-	cl := &cluster{cfg: cfg, fe: &frontend{}, cnt: map[string]int{}, acked: map[int]bool{}, issued: map[int]bool{}, attachAt: map[int]int{}, synced: map[int]bool{}, failedBE: map[int]bool{}, regTruth: map[int]int64{}, opFailed: map[int]bool{},
+	cl := &cluster{cfg: cfg, fe: &frontend{}, cnt: map[string]int{}, acked: map[int]bool{}, issued: map[int]bool{}, attachAt: map[int]int{}, synced: map[int]bool{}, failedBE: map[int]bool{}, adds: map[int]*task{}, regTruth: map[int]int64{}, opFailed: map[int]bool{},
 		failIO: map[int]bool{}, failREST: map[string]bool{}, stickyREST: map[string]bool{}}
 	cl.down = make([]bool, cfg.N)
 	for i := 0; i < cfg.N; i++ {
@@ -409,6 +414,12 @@ func gateName(req *http.Request) string {
 func (cl *cluster) destroy() {
 	cl.killTask(cl.task)
 	cl.killTask(cl.taskX)
+	for _, t := range cl.adds {
+		// let a parked add run to its end (it holds no lock while parked)
+		for i := 0; i < 3 && !t.done; i++ {
+			cl.stepTask(t)
+		}
+	}
 	for _, n := range cl.nodes {
 		n.Destroy()
 	}
